@@ -16,6 +16,20 @@
 //   read k=v ...                   api=next|loop|iter  filt=none|empty|cfg|ctor|post|clr (ctor filter, then set_filter(""))  raw=0|1  src=name|fp  mv=0|1  tog=K (api=next: raw mode flipped after K packets)
 //                                  max=<n> stop=<k> thr=<i>:<mal|nf>,...  cb=packet|pdu   f=<filter text to end of line>
 //   offline <how> f=<filter>       OfflinePacketFilter over the frames read back as RawPDU (how = pdu | buf)
+//   wp / wq <how> <sec> <usec> <hex> | <annotation>   write(PDU&) / write(T&) with T = unique_ptr<PDU>: the record is
+//        stamped with the wall clock; the harness reads gettimeofday before and after the call and, at close, checks
+//        that the stored stamp lies between the two readings and then replaces it by <sec>.<usec> (so that the file
+//        is deterministic and is compared byte for byte like every other one)
+//   wr-begin <val|ptr|uptr|sptr|list> / wr-item <how> <sec> <usec> <hex> | <ann> ... / wr-end
+//        write(begin, end) over a vector<RawPDU> / vector<PDU*> / vector<unique_ptr<PDU>> / vector<shared_ptr<PDU>> /
+//        list<PDU*>; every element is wall-clock stamped (checked and replaced like wp)
+//   wmv                            the live writer is move-constructed into a new object mid-file
+//   wma                            `other = std::move(writer)` onto a second writer mid-file; the first object (now
+//                                  holding the second file) is destroyed; writing goes on through `other`
+//   session src=name|fp init=none|<i> s=<tok>,<tok>,... |f| <filter 0> |f| <filter 1> ...
+//        a script of calls on ONE live FileSniffer; tokens: np  drain  loop:<max>:<stop>:<thr>:<k|u>:<side>
+//        iter:<stop>:<0|1 postfix ++>:<side>  raw:<0|1>  filt:<i|e>  bad:<j>  meth:<l|d|x>  mvc  mva  lt  ss
+//        thr = - | i.mal+i.nf+i.oth   side = - | i.ss+i.r0+i.r1+i.f<j>+i.fe (calls made by the functor at its i-th run)
 //
 // Annotate mode (argv[1] = "annotate"): stateless, two lines per frame
 //   ann <dlt> <how> <hex> f=<filter>   -> s=<hex written> adv=<n> m=<0|1> mo=<0|1>
@@ -30,6 +44,8 @@
 #include <tins/loopback.h>
 #include <pcap.h>
 #include <map>
+#include <list>
+#include <sys/time.h>
 #include <memory>
 #include <unistd.h>
 #include <sys/stat.h>
@@ -188,6 +204,13 @@ static std::string annotate(const std::string& line) {
         }
         return o.str();
     }
+    if (w.size() >= 4 && w[0] == "annf") {
+        // `annf <dlt> <adv> <hex of the stored bytes> f=<filter>` -> x=<0|1|-1>: what a savefile-compiled program says
+        bytes b;
+        if (!parse_hex(w[3], b)) return "bad-op";
+        return "x=" + std::to_string(direct_match(std::stoi(w[1]), rest_after(line, "f="), true, b.data(), uint32_t(b.size()),
+                                                   uint32_t(std::stoul(w[2]))));
+    }
     if (w.size() < 4 || w[0] != "ann") return "bad-op";
     int dlt = std::stoi(w[1]);
     bytes b;
@@ -223,11 +246,20 @@ static int exact_method(pcap_t* h, int, pcap_handler cb, u_char* user) {
     return r;
 }
 
+struct Wall { size_t idx; timeval t0, t1; long long sec, usec; };
+struct Pending { std::string how; bytes b; long long sec, usec; };
+
 struct Case {
     std::string path;
     std::string lt;          // writer link type token
     std::string method;
     std::unique_ptr<PacketWriter> writer;
+    size_t nrec;             // records handed to the writer so far
+    std::vector<Wall> wall;  // the wall-clock stamped ones
+    bool in_range;
+    std::string range_kind;
+    std::vector<Pending> pending;
+    Case() : nrec(0), in_range(false) { }
 };
 
 static PacketWriter* make_writer(const std::string& path, const std::string& lt) {
@@ -343,6 +375,277 @@ static std::string drain(FileSniffer& sn, std::vector<std::string>& out, long to
     } catch (const std::exception& e) {
         return "escape:" + xname(e);
     }
+}
+
+static bool tv_le(const timeval& a, const timeval& b) {
+    return a.tv_sec < b.tv_sec || (a.tv_sec == b.tv_sec && a.tv_usec <= b.tv_usec);
+}
+
+static void put32(bytes& f, size_t off, uint32_t v) {
+    f[off] = uint8_t(v); f[off + 1] = uint8_t(v >> 8); f[off + 2] = uint8_t(v >> 16); f[off + 3] = uint8_t(v >> 24);
+}
+
+// after the writer was destroyed: every wall-clock stamped record must carry a stamp between the two gettimeofday
+// readings taken around its write call; the stamp is then replaced by the scripted one
+static std::string settle_wall_clock(Case& c) {
+    if (c.wall.empty()) return "ok";
+    bytes f;
+    if (!read_file(c.path, f)) return "nofile";
+    std::vector<size_t> offs;
+    size_t off = 24;
+    while (off + 16 <= f.size()) {
+        offs.push_back(off);
+        off += 16 + size_t(le32(f, off + 8));
+    }
+    std::string res = "ok";
+    for (size_t i = 0; i < c.wall.size(); ++i) {
+        const Wall& w = c.wall[i];
+        if (w.idx >= offs.size()) { res = "missing@" + std::to_string(w.idx); continue; }
+        size_t o = offs[w.idx];
+        timeval st; st.tv_sec = le32(f, o); st.tv_usec = le32(f, o + 4);
+        if (!(st.tv_usec < 1000000 && tv_le(w.t0, st) && tv_le(st, w.t1))) res = "bad@" + std::to_string(w.idx);
+        put32(f, o, uint32_t(w.sec));
+        put32(f, o + 4, uint32_t(w.usec));
+    }
+    FILE* fp = fopen(c.path.c_str(), "wb");
+    if (!fp) return "nowrite";
+    if (!f.empty()) fwrite(f.data(), 1, f.size(), fp);
+    fclose(fp);
+    c.wall.clear();
+    return res;
+}
+
+static const char* BAD_FILTERS[] = { "tcp port", "ip and and udp", "host 300.1.1.1", "((", "len >", "no such primitive" };
+
+static std::vector<std::string> split(const std::string& s, char sep) {
+    std::vector<std::string> v;
+    std::istringstream is(s);
+    std::string t;
+    while (std::getline(is, t, sep)) v.push_back(t);
+    return v;
+}
+
+// the scripted functor of a session: records the packet, makes its configuration calls on the live sniffer, ends as told
+struct SessBody {
+    FileSniffer* sn;
+    std::vector<std::string>* out;
+    long stop;
+    std::map<long, std::string> thr;
+    std::map<long, std::vector<std::string> > side;
+    const std::vector<std::string>* filters;
+    bool* cur_raw;
+    bool* threw_other;
+    long count;
+    bool run(const Timestamp* ts, PDU& pdu) {
+        long i = count++;
+        out->push_back(show_pkt(ts, pdu));
+        auto sd = side.find(i);
+        if (sd != side.end()) {
+            for (const std::string& a : sd->second) {
+                if (a == "ss") sn->stop_sniff();
+                else if (a == "r0") { sn->set_extract_raw_pdus(false); *cur_raw = false; }
+                else if (a == "r1") { sn->set_extract_raw_pdus(true); *cur_raw = true; }
+                else if (a == "fe") sn->set_filter("");
+                else if (a.size() > 1 && a[0] == 'f') {
+                    size_t k = size_t(std::stol(a.substr(1)));
+                    if (k < filters->size()) sn->set_filter((*filters)[k]);
+                }
+            }
+        }
+        auto it = thr.find(i);
+        if (it != thr.end()) {
+            if (it->second == "mal") throw malformed_packet();
+            if (it->second == "nf") throw pdu_not_found();
+            if (it->second == "oth") { *threw_other = true; throw option_not_found(); }
+        }
+        return !(stop && i + 1 == stop);
+    }
+};
+struct SessPkt { SessBody* b; bool operator()(Packet& p) { return b->run(&p.timestamp(), *p.pdu()); } };
+struct SessPdu { SessBody* b; bool operator()(PDU& pdu) { return b->run(0, pdu); } };
+
+static void parse_body(SessBody& b, const std::string& thr, const std::string& side) {
+    if (thr != "-" && !thr.empty())
+        for (const std::string& item : split(thr, '+')) {
+            size_t p = item.find('.');
+            if (p != std::string::npos) b.thr[std::stol(item.substr(0, p))] = item.substr(p + 1);
+        }
+    if (side != "-" && !side.empty())
+        for (const std::string& item : split(side, '+')) {
+            size_t p = item.find('.');
+            if (p != std::string::npos) b.side[std::stol(item.substr(0, p))].push_back(item.substr(p + 1));
+        }
+}
+
+static std::string do_session(Case& c, const std::string& line) {
+    size_t fpos = line.find(" |f| ");
+    std::string head = fpos == std::string::npos ? line : line.substr(0, fpos);
+    std::vector<std::string> filters;
+    while (fpos != std::string::npos) {
+        size_t nx = line.find(" |f| ", fpos + 5);
+        filters.push_back(line.substr(fpos + 5, nx == std::string::npos ? std::string::npos : nx - fpos - 5));
+        fpos = nx;
+    }
+    auto kv = kvs(words(head));
+    std::vector<std::string> script = split(kv["s"], ',');
+    long base = VerifHooks::live_pdus();
+    std::ostringstream o;
+    o << "session";
+    {
+        std::unique_ptr<FileSniffer> sn;
+        try {
+            FILE* fp = 0;
+            if (kv["src"] == "fp") {
+                fp = fopen(c.path.c_str(), "rb");
+                if (!fp) return "session open=nofile";
+            }
+            std::string init = kv.count("init") ? kv["init"] : "none";
+            if (init == "none") {
+                if (fp) sn.reset(new FileSniffer(fp)); else sn.reset(new FileSniffer(c.path));
+            } else {
+                size_t k = size_t(std::stol(init));
+                std::string f = k < filters.size() ? filters[k] : "";
+                if (fp) sn.reset(new FileSniffer(fp, f)); else sn.reset(new FileSniffer(c.path, f));
+            }
+            sn->set_pcap_sniffing_method(method_of(c.method));
+        } catch (const std::exception& e) {
+            return "session open=throw:" + xname(e);
+        }
+        o << " open=ok r=";
+        bool cur_raw = false, aborted = false, first = true;
+        for (const std::string& tokfull : script) {
+            std::vector<std::string> t = split(tokfull, ':');
+            if (t.empty()) continue;
+            std::string r;
+            if (aborted) r = "aborted";
+            else if (t[0] == "np") {
+                try {
+                    Packet p = sn->next_packet();
+                    r = p ? "np=" + show_pkt(&p.timestamp(), *p.pdu()) : "np=null";
+                } catch (const std::exception& e) { r = "np=escape:" + xname(e); aborted = true; }
+            } else if (t[0] == "drain") {
+                std::vector<std::string> out;
+                std::string end = drain(*sn, out);
+                r = "drain=" + join(out) + "/" + end;
+                if (end.compare(0, 6, "escape") == 0) aborted = true;
+            } else if (t[0] == "loop" && t.size() >= 6) {
+                std::vector<std::string> out;
+                bool threw_other = false;
+                SessBody b; b.sn = sn.get(); b.out = &out; b.stop = std::stol(t[2]); b.filters = &filters;
+                b.cur_raw = &cur_raw; b.threw_other = &threw_other; b.count = 0;
+                parse_body(b, t[3], t[5]);
+                std::string end = "returned";
+                try {
+                    if (t[4] == "u") { SessPdu f = { &b }; sn->sniff_loop(f, uint32_t(std::stoul(t[1]))); }
+                    else { SessPkt f = { &b }; sn->sniff_loop(f, uint32_t(std::stoul(t[1]))); }
+                } catch (const std::exception& e) {
+                    end = "escape:" + xname(e);
+                    if (!threw_other) aborted = true;
+                }
+                r = "loop=" + join(out) + "/" + end;
+            } else if (t[0] == "iter" && t.size() >= 4) {
+                std::vector<std::string> out;
+                bool threw_other = false;
+                SessBody b; b.sn = sn.get(); b.out = &out; b.stop = std::stol(t[1]); b.filters = &filters;
+                b.cur_raw = &cur_raw; b.threw_other = &threw_other; b.count = 0;
+                parse_body(b, "-", t[3]);
+                std::string end = "exhausted";
+                try {
+                    if (t[2] == "1") {
+                        for (BaseSniffer::iterator it = sn->begin(); it != sn->end(); it++) {
+                            Packet& p = *it;
+                            if (!b.run(&p.timestamp(), *p.pdu())) { end = "break"; break; }
+                        }
+                    } else {
+                        for (Packet& p : *sn) {
+                            if (!b.run(&p.timestamp(), *p.pdu())) { end = "break"; break; }
+                        }
+                    }
+                } catch (const std::exception& e) { end = "escape:" + xname(e); aborted = true; }
+                r = "iter=" + join(out) + "/" + end;
+            } else if (t[0] == "raw" && t.size() >= 2) {
+                cur_raw = t[1] == "1";
+                sn->set_extract_raw_pdus(cur_raw);
+                r = "raw=ok";
+            } else if (t[0] == "filt" && t.size() >= 2) {
+                std::string f;
+                if (t[1] != "e") { size_t k = size_t(std::stol(t[1])); if (k < filters.size()) f = filters[k]; }
+                r = std::string("filt=") + (sn->set_filter(f) ? "1" : "0");
+            } else if (t[0] == "bad" && t.size() >= 2) {
+                size_t k = size_t(std::stol(t[1])) % (sizeof BAD_FILTERS / sizeof BAD_FILTERS[0]);
+                r = std::string("bad=") + (sn->set_filter(BAD_FILTERS[k]) ? "1" : "0");
+            } else if (t[0] == "meth" && t.size() >= 2) {
+                sn->set_pcap_sniffing_method(method_of(t[1] == "d" ? "dispatch" : t[1] == "x" ? "exact" : "loop"));
+                r = "meth=ok";
+            } else if (t[0] == "mvc") {
+                std::unique_ptr<FileSniffer> n(new FileSniffer(std::move(*sn)));
+                sn.swap(n);
+                n.reset();                                  // the moved-from object is destroyed first
+                r = "mvc=ok";
+            } else if (t[0] == "mva") {
+                // a second sniffer on the same file, fresh (position 0, no filter, pcap_loop) and in the OTHER raw mode
+                std::unique_ptr<FileSniffer> other(new FileSniffer(c.path));
+                other->set_extract_raw_pdus(!cur_raw);
+                *other = std::move(*sn);
+                sn.swap(other);
+                other.reset();                              // destroys the object now holding the fresh handle
+                r = "mva=ok";
+            } else if (t[0] == "lt") {
+                r = "lt=" + std::to_string(sn->link_type());
+            } else if (t[0] == "ss") {
+                sn->stop_sniff();
+                r = "ss=ok";
+            } else r = "bad-token";
+            if (!first) o << ";";
+            first = false;
+            o << r;
+        }
+        if (first) o << "-";
+    }
+    o << " live=" << (VerifHooks::live_pdus() - base);
+    return o.str();
+}
+
+// write(PDU&) / write(T&) / write(begin, end): wall-clock stamped
+static void note_wall(Case& c, const timeval& t0, const timeval& t1, size_t first, const std::vector<Pending>& items) {
+    for (size_t i = 0; i < items.size(); ++i) {
+        Wall w; w.idx = first + i; w.t0 = t0; w.t1 = t1; w.sec = items[i].sec; w.usec = items[i].usec;
+        c.wall.push_back(w);
+    }
+}
+
+static std::string do_range(Case& c) {
+    std::vector<Pending> items;
+    items.swap(c.pending);
+    std::string kind = c.range_kind;
+    c.in_range = false;
+    if (!c.writer) return "wr-end nowriter";
+    size_t first = c.nrec;
+    timeval t0, t1;
+    std::vector<std::unique_ptr<PDU> > own;
+    for (const Pending& it : items) own.push_back(std::unique_ptr<PDU>(pdu_to_write(it.how, it.b)));
+    if (kind == "val") {
+        std::vector<RawPDU> v;
+        for (const Pending& it : items) v.push_back(RawPDU(it.b.data(), uint32_t(it.b.size())));
+        gettimeofday(&t0, 0); c.writer->write(v.begin(), v.end()); gettimeofday(&t1, 0);
+    } else if (kind == "ptr") {
+        std::vector<PDU*> v;
+        for (auto& p : own) v.push_back(p.get());
+        gettimeofday(&t0, 0); c.writer->write(v.begin(), v.end()); gettimeofday(&t1, 0);
+    } else if (kind == "list") {
+        std::list<PDU*> v;
+        for (auto& p : own) v.push_back(p.get());
+        gettimeofday(&t0, 0); c.writer->write(v.begin(), v.end()); gettimeofday(&t1, 0);
+    } else if (kind == "sptr") {
+        std::vector<std::shared_ptr<PDU> > v;
+        for (auto& p : own) v.push_back(std::shared_ptr<PDU>(p.release()));
+        gettimeofday(&t0, 0); c.writer->write(v.begin(), v.end()); gettimeofday(&t1, 0);
+    } else {
+        gettimeofday(&t0, 0); c.writer->write(own.begin(), own.end()); gettimeofday(&t1, 0);
+    }
+    note_wall(c, t0, t1, first, items);
+    c.nrec += items.size();
+    return "wr-end n=" + std::to_string(items.size());
 }
 
 static std::string do_read(Case& c, const std::string& line) {
@@ -511,6 +814,7 @@ int main(int argc, char** argv) {
             if (w[0] == "file" && w.size() >= 3) {
                 c.writer.reset();
                 unlink(c.path.c_str());
+                c.nrec = 0; c.wall.clear(); c.in_range = false; c.pending.clear();
                 c.lt = w[1];
                 c.method = w[2];
                 // every writer goes through the move constructor once (the moved-from one is destroyed right away)
@@ -529,15 +833,69 @@ int main(int argc, char** argv) {
                 std::unique_ptr<PDU> pdu(pdu_to_write(w[1], b));
                 Packet pkt(pdu.release(), Timestamp(tv), Packet::own_pdu());
                 c.writer->write(pkt);
+                c.nrec++;
                 return "w ok";
+            }
+            if ((w[0] == "wp" || w[0] == "wq") && w.size() >= 5) {
+                if (!c.writer) return w[0] + " nowriter";
+                Pending it; it.how = w[1];
+                if (!parse_hex(w[4], it.b)) return "bad-op";
+                it.sec = std::stoll(w[2]); it.usec = std::stoll(w[3]);
+                std::unique_ptr<PDU> pdu(pdu_to_write(w[1], it.b));
+                timeval t0, t1;
+                gettimeofday(&t0, 0);
+                if (w[0] == "wp") c.writer->write(*pdu); else c.writer->write(pdu);
+                gettimeofday(&t1, 0);
+                note_wall(c, t0, t1, c.nrec, std::vector<Pending>(1, it));
+                c.nrec++;
+                return w[0] + " ok";
+            }
+            if (w[0] == "wr-begin" && w.size() >= 2) {
+                c.in_range = true; c.range_kind = w[1]; c.pending.clear();
+                return "wr-begin ok";
+            }
+            if (w[0] == "wr-item" && w.size() >= 5) {
+                if (!c.in_range) return "wr-item norange";
+                Pending it; it.how = c.range_kind == "val" ? "raw" : w[1];
+                if (!parse_hex(w[4], it.b)) return "bad-op";
+                it.sec = std::stoll(w[2]); it.usec = std::stoll(w[3]);
+                c.pending.push_back(it);
+                return "wr-item ok";
+            }
+            if (w[0] == "wr-end") {
+                if (!c.in_range) return "wr-end norange";
+                return do_range(c);
+            }
+            if (w[0] == "wmv") {
+                if (!c.writer) return "wmv nowriter";
+                std::unique_ptr<PacketWriter> n(new PacketWriter(std::move(*c.writer)));
+                c.writer.swap(n);
+                n.reset();
+                return "wmv ok";
+            }
+            if (w[0] == "wma") {
+                if (!c.writer) return "wma nowriter";
+                std::string other = c.path + ".c";
+                std::unique_ptr<PacketWriter> o2(make_writer(other, c.lt));
+                *o2 = std::move(*c.writer);
+                c.writer.swap(o2);
+                o2.reset();                                  // closes the second file, which holds no record
+                int leak = __lsan_do_recoverable_leak_check();
+                bytes f;
+                std::string r = "wma other=";
+                r += read_file(other, f) ? std::to_string(f.size()) : std::string("nofile");
+                unlink(other.c_str());
+                return r + " leak=" + (leak ? "1" : "0");
             }
             if (w[0] == "close") {
                 c.writer.reset();
+                std::string wall = settle_wall_clock(c);
                 bytes f;
                 if (!read_file(c.path, f)) return "close nofile";
                 std::ostringstream o;
                 o << "close size=" << f.size() << " fnv=" << fnv(f);
                 if (f.size() >= 24) o << " snaplen=" << le32(f, 16) << " linktype=" << le32(f, 20);
+                o << " wall=" << wall;
                 return o.str();
             }
             if (w[0] == "rotate") {
@@ -548,12 +906,13 @@ int main(int argc, char** argv) {
                     *c.writer = std::move(*next);
                 }
                 int leak = __lsan_do_recoverable_leak_check();
+                std::string wall = settle_wall_clock(c);
                 bytes f;
                 if (!read_file(c.path, f)) return "rotate nofile";
                 std::ostringstream o;
                 o << "rotate size=" << f.size() << " fnv=" << fnv(f);
                 if (f.size() >= 24) o << " snaplen=" << le32(f, 16) << " linktype=" << le32(f, 20);
-                o << " leak=" << (leak ? 1 : 0);
+                o << " leak=" << (leak ? 1 : 0) << " wall=" << wall;
                 c.writer.reset();
                 unlink(other.c_str());
                 return o.str();
@@ -567,6 +926,7 @@ int main(int argc, char** argv) {
                 return "chop size=" + std::to_string(n);
             }
             if (w[0] == "read") return do_read(c, line);
+            if (w[0] == "session") return do_session(c, line);
             if (w[0] == "offline") return do_offline(c, line);
         } catch (const std::exception& e) {
             return std::string(w[0]) + " throw:" + xname(e);
